@@ -24,7 +24,8 @@ ASSUMPTIONS = ['indices are interpreted as list.insert interprets them', 'patter
 REQUIRED_REACH = ['op:construct', 'op:add-route', 'op:add-tuple', 'op:add-subapp', 'op:embed-existing', 'op:rebind-route',
                   'op:failing-add', 'fail:unresolved', 'fail:conflict', 'fail:bad-pattern', 'fail:bad-middleware',
                   'fail:kth-of-subapp', 'fail:kth-of-subapp:k>1', 'index:negative', 'index:overshooting', 'index:negative-multi',
-                  'route-bound-into>=2-apps', 'embedded-app-used-directly-later', 'probes-compared', 'fingerprints-compared']
+                  'route-bound-into>=2-apps', 'embedded-app-used-directly-later', 'probes-compared', 'fingerprints-compared', 'app-with-render-factory',
+                  'embedded-route-with-render-arg', 'renderer-compared']
 NSHARDS = 16
 PATTERNS = ['/a', '/a/<x>', '/<x>', '/b', '/a/b', '/c/<y>', '/<x>/<y>', '/d']
 BEHS = ['ok', 'ok', 'ok', 'raise_nb_404', 'return_nb_403', 'raise_403', 'uncaught']
@@ -44,7 +45,7 @@ class World(object):
     def new_spec(self):
         self.n += 1
         return {'rid': 'r%d' % self.n, 'pattern': self.rng.pick(PATTERNS), 'methods': self.rng.pick(METHOD_SETS),
-                'beh': self.rng.pick(BEHS)}
+                'beh': self.rng.pick(BEHS), 'render_arg': self.rng.chance(0.3)}
 
     def stamp_mw(self, label):
         from clastic import Middleware
@@ -86,12 +87,24 @@ class World(object):
             rt = tables.make_route(s)
             self.routes.append({'route': rt, 'spec': s, 'fp': self.route_fp(rt), 'bound': 1})
             entries.append(rt)
-        app = Application(entries, resources=res, middlewares=mws)
-        a = {'app': app, 'label': label, 'mws': [label] if has_mw else [], 'resources': sorted(res),
-             'table': [dict(s, mws=[label] if has_mw else []) for s in specs], 'embedded_in': 0, 'used_after_embed': False}
+        factory = label if self.rng.chance(0.4) else None
+        app = Application(entries, resources=res, middlewares=mws,
+                          render_factory=tables.make_factory(label) if factory else None)
+        a = {'app': app, 'label': label, 'mws': [label] if has_mw else [], 'resources': sorted(res), 'factory': factory,
+             'table': [dict(s, mws=[label] if has_mw else [], render=self.bound_render(s, factory)) for s in specs],
+             'embedded_in': 0, 'used_after_embed': False}
+        if factory:
+            self.sh.hit('app-with-render-factory')
         self.apps.append(a)
         self.ops.append(['construct', label, [s['rid'] for s in specs], has_mw, sorted(res)])
         self.sh.hit('op:construct')
+
+    @staticmethod
+    def bound_render(spec, factory):
+        """which factory renders a route with a render argument once it is bound into an application"""
+        if not spec.get('render_arg'):
+            return None
+        return factory or 'noop'
 
     def pick_index(self, a, multi=False):
         n = len(a['table'])
@@ -131,6 +144,8 @@ class World(object):
         if form == 'tuple':
             ep = tables.make_endpoint(s['rid'], s['beh'], tables.bindings_of(s['pattern']))
             s['methods'] = None
+            s['render_arg'] = False
+            ep = tables.make_endpoint(s['rid'], s['beh'], tables.bindings_of(s['pattern']))
             a['app'].add((s['pattern'], ep), **kw)
             self.sh.hit('op:add-tuple')
         else:
@@ -138,7 +153,7 @@ class World(object):
             self.routes.append({'route': rt, 'spec': s, 'fp': self.route_fp(rt), 'bound': 1})
             a['app'].add(rt, **kw)
             self.sh.hit('op:add-route')
-        self.insert_block(a['table'], idx, [dict(s, mws=list(a['mws']))])
+        self.insert_block(a['table'], idx, [dict(s, mws=list(a['mws']), render=self.bound_render(s, a['factory']))])
         self.ops.append(['add-' + form, a['label'], s['rid'], s['pattern'], idx])
         self.touch(a)
 
@@ -155,7 +170,7 @@ class World(object):
         r['bound'] += 1
         if r['bound'] >= 2:
             self.sh.hit('route-bound-into>=2-apps')
-        self.insert_block(a['table'], idx, [dict(r['spec'], mws=list(a['mws']))])
+        self.insert_block(a['table'], idx, [dict(r['spec'], mws=list(a['mws']), render=self.bound_render(r['spec'], a['factory']))])
         self.ops.append(['rebind-route', a['label'], r['spec']['rid'], idx])
         self.sh.hit('op:rebind-route')
         self.touch(a)
@@ -190,8 +205,14 @@ class World(object):
                 self.sh.hit('fail:kth-of-subapp:k>1')
             return
         target['app'].add(entry, **kw)
+        # renderers are not re-bound by default: an embedded route keeps the factory it was bound with, unless it
+        # had none - then the embedding application's factory fills in
         block = [dict(e, pattern=prefix.rstrip('/') + e['pattern'],
-                      mws=list(target['mws']) + [m for m in e['mws'] if m not in target['mws']]) for e in inner['table']]
+                      mws=list(target['mws']) + [m for m in e['mws'] if m not in target['mws']],
+                      render=(target['factory'] if (e.get('render') == 'noop' and target['factory']) else e.get('render')))
+                 for e in inner['table']]
+        if any(e.get('render') for e in block):
+            self.sh.hit('embedded-route-with-render-arg')
         self.insert_block(target['table'], idx, block)
         inner['embedded_in'] += 1
         self.ops.append(['embed', target['label'], inner['label'], prefix, idx])
@@ -277,7 +298,9 @@ class World(object):
                 return
         for a in self.apps:
             for method, path in self.probe_requests(a):
-                exp = md.dispatch(a['table'], path, method)
+                # a route whose render argument no factory interprets hands its context through: a server error
+                eff = [dict(e, beh=('uncaught' if (e.get('render') == 'noop' and e['beh'] == 'ok') else e['beh'])) for e in a['table']]
+                exp = md.dispatch(eff, path, method)
                 tr = spies.new_trace()
                 ex = probe.request(a['app'], method, path, token='t', trace=tr)
                 ran = [e[1] for e in tr['events'] if e[0] == 'ep']
@@ -296,6 +319,10 @@ class World(object):
                         problem = 'answered by %r, model says %r' % (ex.header('X-Route'), exp['by'])
                     elif sorted(stamps) != sorted(entry['mws']):
                         problem = 'middleware stamps %r, model says %r' % (stamps, entry['mws'])
+                    elif entry.get('render') and ex.header('X-Rendered-By') != entry['render']:
+                        problem = 'rendered by factory %r, model says %r' % (ex.header('X-Rendered-By'), entry['render'])
+                    elif entry.get('render'):
+                        sh.hit('renderer-compared')
                 if problem:
                     sh.violation('C11/application-behaves-differently', 'after %r: %s %s on %s: %s'
                                  % (self.ops[-1], method, path, a['label'], problem), {'ops': self.ops})
